@@ -132,8 +132,42 @@ def expected_props(items):
     return [(to_bytes(k), None if v is None else to_bytes(v)) for k, v in items]
 
 
+def canon(x):
+    """total, order-able canonical form of anything the library may hand back: bytes and None are themselves,
+    everything else keeps its type name and repr (so a str 'a' never equals the bytes b'a')"""
+    if x is None:
+        return ("0none", "")
+    if type(x) is bytes:
+        return ("1bytes", x.hex())
+    return ("2" + type(x).__name__, repr(x))
+
+
+def pairs_of(obj):
+    """the (key, value) pairs of whatever `.properties` returned; never raises"""
+    try:
+        return list(obj.items())
+    except Exception:  # noqa: BLE001 - not a mapping: one pseudo-entry that can equal nothing
+        return [(("<not a mapping>", type(obj).__name__, repr(obj)[:80]), None)]
+
+
 def norm(props):
-    return sorted((k, v or None) for k, v in props)
+    """order-insensitive, empty value = no value (the library's reading); total on any types"""
+    out = []
+    for k, v in props:
+        if type(v) is bytes and v == b"":
+            v = None
+        out.append((canon(k), canon(v)))
+    return sorted(out)
+
+
+def exact(props):
+    """order-insensitive, empty value kept (the RFC reader's reading); total on any types"""
+    return sorted((canon(k), canon(v)) for k, v in props)
+
+
+def not_bytes(props):
+    """the entries of an observed properties mapping whose key is not bytes or whose value is neither bytes nor None"""
+    return [(k, v) for k, v in props if type(k) is not bytes or not (v is None or type(v) is bytes)]
 
 
 def wf_props(exp, rfc=False):
@@ -182,8 +216,8 @@ def impl_txt(items):
     try:
         info = ServiceInfo(T0, N0, properties=dict(items))
         text = info.text
-        props = list(info.properties.items())
-        fresh = list(ServiceInfo(T0, N0, properties=text).properties.items())
+        props = pairs_of(info.properties)
+        fresh = pairs_of(ServiceInfo(T0, N0, properties=text).properties) if type(text) is bytes else [(("<text is not bytes>",), None)]
         return ("ok", text, props, fresh)
     except Exception as ex:  # noqa: BLE001
         return ("err", type(ex).__name__)
@@ -193,7 +227,7 @@ def impl_dec(text):
     from zeroconf import ServiceInfo
 
     try:
-        return ("ok", list(ServiceInfo(T0, N0, properties=text).properties.items()))
+        return ("ok", pairs_of(ServiceInfo(T0, N0, properties=text).properties))
     except Exception as ex:  # noqa: BLE001
         return ("err", type(ex).__name__)
 
@@ -384,6 +418,53 @@ def gen_dict(rng):
     return items
 
 
+def type_matrix():
+    """every combination of key type {str, bytes} and value kind {str, bytes, None, '', b''} for dictionaries of
+    1, 2 and 3 entries (1110 dictionaries): in particular all-bytes keys with one str value, all-str, mixed"""
+    kinds = [(kt, vk) for kt in ("s", "b") for vk in ("s", "b", "n", "es", "eb")]
+    names = ["ka", "kb", "kc"]
+    for n in (1, 2, 3):
+        for combo in itertools.product(kinds, repeat=n):
+            items = []
+            for i, (kt, vk) in enumerate(combo):
+                k = names[i] if kt == "s" else names[i].encode()
+                v = {"s": "v%d" % i, "b": b"w%d" % i, "n": None, "es": "", "eb": b""}[vk]
+                items.append((k, v))
+            yield items
+
+
+def dict_types(items):
+    """type signature of a dictionary: which key types and value kinds occur"""
+    ks = "".join(sorted({"s" if isinstance(k, str) else "b" for k, _ in items}))
+    vs = "".join(sorted({"n" if v is None else ("s" if isinstance(v, str) else "b") for _, v in items}))
+    return "k%s/v%s" % (ks or "-", vs or "-")
+
+
+def gen_dict_typed(rng):
+    """a dictionary drawn under a key-type policy and a value-type policy (each singly: all bytes, all str, mixed),
+    with realistic DNS-SD content (values containing '=', '/', non-ASCII, base64 padding)"""
+    kpol = rng.choice(["b", "b", "s", "m"])
+    vpol = rng.choice(["s", "s", "b", "m", "one-s", "one-b"])
+    n = rng.choice([1, 1, 2, 3, 4])
+    keys = rng.sample(["path", "txtvers", "sh", "id", "md", "fn", "A", "rs", "c#", "ff", "x y"], n)
+    special = rng.randrange(n)
+    items = []
+    for i, k in enumerate(keys):
+        kt = kpol if kpol != "m" else rng.choice("sb")
+        if vpol in ("s", "b"):
+            vt = vpol
+        elif vpol == "m":
+            vt = rng.choice("sbn")
+        elif vpol == "one-s":
+            vt = "s" if i == special else rng.choice("bn")
+        else:
+            vt = "b" if i == special else rng.choice("sn")
+        sv = rng.choice(["1", "/~paulsm/", "6fLM5A==", "=", "a=b=c", "http://h/p?a=1&b=2", "é", "日本", "", " ", "T", "0"])
+        v = None if vt == "n" else (sv if vt == "s" else sv.encode("utf-8"))
+        items.append((k if kt == "s" else k.encode(), v))
+    return items
+
+
 def gen_text(rng):
     r = rng.random()
     items = []
@@ -406,13 +487,27 @@ def gen_text(rng):
 # comparison helpers
 
 
+def tok(x, none="N"):
+    """one line-protocol token for a key or value; anything that is not bytes/None is tagged with its type and
+    repr, so it can never be mistaken for (or compare equal to) a model token"""
+    if x is None:
+        return none
+    if type(x) is bytes:
+        return C.hx(x)
+    return "!%s:%s" % (type(x).__name__, repr(x).encode("utf-8", "backslashreplace").hex())
+
+
 def val_tok(v):
-    return "N" if v is None else C.hx(v)
+    return tok(v)
 
 
 def props_str(props, ordered=True):
-    ps = list(props) if ordered else sorted(props, key=lambda e: e[0])
-    return " ".join(["%d" % len(ps)] + ["%s %s" % (C.hx(k), val_tok(v)) for k, v in ps])
+    ps = list(props) if ordered else sorted(props, key=lambda e: (canon(e[0]), canon(e[1])))
+    return " ".join(["%d" % len(ps)] + ["%s %s" % (tok(k, "!None"), val_tok(v)) for k, v in ps])
+
+
+def text_hex(text):
+    return text.hex() if type(text) is bytes else tok(text)
 
 
 def name_line(s, strict):
@@ -420,7 +515,11 @@ def name_line(s, strict):
 
 
 def name_obs_str(obs):
-    return "ok %s" % C.hs(obs[1]) if obs[0] == "ok" else "err %s" % obs[1]
+    if obs[0] != "ok":
+        return "err %s" % obs[1]
+    if type(obs[1]) is not str:  # total: a non-str return value can never equal a model answer
+        return "ok !%s:%s" % (type(obs[1]).__name__, repr(obs[1]).encode("utf-8", "backslashreplace").hex())
+    return "ok %s" % C.hs(obs[1])
 
 
 def txt_line(items):
@@ -488,14 +587,34 @@ def txt_violations(items, obs):
     if obs[0] == "err":
         return [("C19:txt-encode-raises:%s" % obs[1], "a well-formed properties dictionary raised %s" % obs[1], case)]
     _, text, props, fresh = obs
+    if type(text) is not bytes:
+        return [("C19:text-not-bytes", ".text is %s, not bytes" % type(text).__name__, dict(case, text=text_hex(text)))]
+    case = dict(case, text=text.hex())
+    # "keys and values (as bytes ...)": what .properties hands back must be bytes keys and bytes-or-None values
+    bad = not_bytes(props)
+    if bad:
+        out.append(("C19:properties-not-bytes",
+                    ".properties returns %s for key %r: keys and values must be bytes (the TXT bytes are %r)"
+                    % (("the %s %r" % (type(bad[0][1]).__name__, bad[0][1])) if type(bad[0][0]) is bytes else "a non-bytes key", bad[0][0], text),
+                    dict(case, got=props_str(props, False))))
+    if not_bytes(fresh):
+        out.append(("C19:decoded-properties-not-bytes", "decoding .text in the library yields non-bytes keys/values", dict(case, got=props_str(fresh, False))))
+    # .properties against the dictionary, against the library's own decode of the TXT bytes, and against the RFC reader
     if norm(props) != norm(exp):
-        out.append(("C19:txt-properties-differ", ".properties does not give back the dictionary (empty value = no value)", dict(case, got=props_str(props, False))))
+        out.append(("C19:txt-properties-differ", ".properties does not give back the dictionary (same keys and values as bytes; empty value = no value)",
+                    dict(case, got=props_str(props, False))))
+    if norm(props) != norm(fresh):
+        out.append(("C19:properties-disagree-with-library-decode", ".properties differs from the library's own decode of .text",
+                    dict(case, got=props_str(props, False), decoded=props_str(fresh, False))))
     if norm(fresh) != norm(exp):
-        out.append(("C19:txt-library-decode-differs", "decoding .text in the library does not give back the dictionary", dict(case, text=text.hex(), got=props_str(fresh, False))))
+        out.append(("C19:txt-library-decode-differs", "decoding .text in the library does not give back the dictionary", dict(case, got=props_str(fresh, False))))
     if wf_props(exp, rfc=True):
         got = rfc_parse(text)
-        if got is None or sorted(got, key=lambda e: e[0]) != sorted(exp, key=lambda e: e[0]):
-            out.append(("C19:txt-rfc6763-decode-differs", "an RFC 6763 section 6 reader does not recover the dictionary from .text", dict(case, text=text.hex())))
+        if got is None or exact(got) != exact(exp):
+            out.append(("C19:txt-rfc6763-decode-differs", "an RFC 6763 section 6 reader does not recover the dictionary from .text", case))
+        if got is not None and norm(props) != norm(got):
+            out.append(("C19:properties-disagree-with-rfc6763", ".properties differs from what an RFC 6763 section 6 reader finds in .text",
+                        dict(case, got=props_str(props, False), rfc=props_str(got, False))))
     return out
 
 
@@ -509,7 +628,7 @@ def case_size(case):
 def run(ctx):
     res = C.Result("C19")
     seed, tier = ctx["seed"], ctx["tier"]
-    mult = 4 if ctx["widened"] else 1
+    mult = 3 if ctx["widened"] else 1  # the rebuild after a tree change already costs ~45 s of the 120 s cap
     B = lambda q, t: C.Budget(tier, q, t).n * mult  # noqa: E731
 
     # ---------------- name stream
@@ -578,6 +697,10 @@ def run(ctx):
             dicts.append(items_unjson(body["items"]))
     dicts += [[], [("a", None)], [("a", "")], [(b"a", b"")], [("a", "1"), (b"a", b"2")], [("a", "1"), ("A", "2")], [("", "x")], [("a=b", "c")],
               [("k" * 255, None)], [("k" * 256, None)], [("k" * 253, "")], [("k" * 253, "v")], [("k" * 254, "")], [(b"k" * 254, b"")], [(b"k", b"v" * 253)], [(b"k", b"v" * 254)]]
+    dicts += list(type_matrix())
+    rng = C.rng_for(seed, "c19", "txt-typed")
+    for _ in range(B(10000, 150000)):
+        dicts.append(gen_dict_typed(rng))
     rng = C.rng_for(seed, "c19", "txt")
     for _ in range(B(30000, 500000)):
         dicts.append(gen_dict(rng))
@@ -635,7 +758,7 @@ def run(ctx):
         if len(res.samples) < 3 and tag.startswith("g:") and obs[0] == "ok":
             res.sample({"name": s, "strict": strict, "type": obs[1]})
     assert mi == n_name
-    for sig in sorted(best_v, key=lambda k: (len(best_v[k][2]["name"]), k)):
+    for sig in sorted(best_v, key=lambda k: (has_surrogate(best_v[k][2]["name"]), len(best_v[k][2]["name"]), k)):  # text inputs first
         res.violate(*best_v[sig])
 
     # ---------------- evaluate ctor
@@ -675,28 +798,33 @@ def run(ctx):
         exp = expected_props(items)
         case = {"stream": "txt", "items": items_json(items)}
         maxitem = max([len(k) + (0 if v is None else 1 + len(v)) for k, v in exp] or [0])
-        res.nontriv("t/%d/%s/%s/%s/%s" % (min(len(items), 3), wf_props(exp), wf_props(exp, True), obs[0] if obs[0] == "ok" else obs[1],
-                                          "lim" if maxitem >= 254 else ""))
+        res.nontriv("t/%d/%s/%s/%s/%s/%s" % (min(len(items), 3), wf_props(exp), wf_props(exp, True), obs[0] if obs[0] == "ok" else obs[1],
+                                             "lim" if maxitem >= 254 else "", dict_types(items)))
+        res.count("txt-types:" + dict_types(items))
         res.count("txt-wf" if wf_props(exp, True) else "txt-not-wf")
         for v in txt_violations(items, obs):
             res.count("txt-violations")
-            if v[0] not in best_t or case_size(v[2]) < case_size(best_t[v[0]][2]):
-                best_t[v[0]] = v
+            # per signature keep the smallest case, preferring dictionaries that are well-formed for both readers
+            size = case_size(v[2]) + (0 if wf_props(exp, True) else 10000)
+            if v[0] not in best_t or size < best_t[v[0]][0]:
+                best_t[v[0]] = (size, v)
         if model is not None:
             m = model[n_name + n_ctor + idx]
             if obs[0] == "err":
                 mine = "err %s" % obs[1]
             else:
                 _, text, props, fresh = obs
-                rp = rfc_parse(text)
-                mine = "ok %s L %s D %s R %s" % (C.hx(text), props_str(props), props_str(fresh), "bad" if rp is None else props_str(rp))
+                rp = rfc_parse(text) if type(text) is bytes else None
+                mine = "ok %s L %s D %s R %s" % (tok(text, "!None"), props_str(props), props_str(fresh), "bad" if rp is None else props_str(rp))
             if m != mine:
                 res.disagree("txt", case, mine, m)
         if idx == 20:
-            res.sample({"properties": items_json(items), "text": obs[1].hex() if obs[0] == "ok" else obs[1]})
+            res.sample({"properties": items_json(items), "text": text_hex(obs[1]) if obs[0] == "ok" else obs[1]})
 
-    for sig in sorted(best_t):
-        res.violate(*best_t[sig])
+    # the most specific signature first (it becomes the replay)
+    prio = ["C19:text-not-bytes", "C19:properties-not-bytes", "C19:decoded-properties-not-bytes", "C19:txt-encode-raises"]
+    for sig in sorted(best_t, key=lambda k: (min([i for i, q in enumerate(prio) if k.startswith(q)] or [len(prio)]), k)):
+        res.violate(*best_t[sig][1])
 
     # ---------------- evaluate dec
     for idx, text in enumerate(texts):
